@@ -15,7 +15,7 @@ def run_admin(chk):
         v = vlib.classify_panic(t["out"])
         if v:
             return dict(scenarios=0, violations=[dict(sig="admin:" + v["sig"], desc=v["desc"])], stuck=[])
-        raise vlib.MachineryError("admin driver failed:\n" + t["out"][-3000:])
+        raise vlib.driver_failed("admin driver failed", t["out"])
     res = json.load(open(resf))
     lines = [l for l in open(os.path.join(wd, "admin_trace.ndjson")).read().splitlines() if l.strip()]
     chunks = vlib.split_trace(lines, 1, reset_marker='"ev":"adminStart"')
